@@ -674,10 +674,20 @@ class IndividualParameters:
         }
 
         # Default json.dump kwargs:
-        kwargs = {"indent": 2, **kwargs}
+        # (numpy scalars, which are accepted as parameter values, are written as the python number they hold)
+        kwargs = {"indent": 2, "default": self._numpy_scalar_to_python, **kwargs}
 
         with open(path, "w") as f:
             json.dump(json_data, f, **kwargs)
+
+    @staticmethod
+    def _numpy_scalar_to_python(obj):
+        """`default` hook of :func:`json.dump`: numpy scalars (np.int32, np.int64, np.float32...) as python numbers."""
+        if isinstance(obj, np.generic):
+            return obj.item()
+        raise TypeError(
+            f"Object of type {type(obj).__name__} is not JSON serializable"
+        )
 
     @classmethod
     def _load_csv(cls, path: str):
